@@ -120,8 +120,8 @@ def record_traces(n_examples, seed, fns=None, hashable=False):
         kw = {'key': 'k'}
         if fns is joinlib.MERGE_FN:
             kw.update(buffersize=bs, cache=cache)
-        else:
-            kw.update(cache=cache)
+        elif op in ('join', 'left', 'right'):
+            kw.update(cache=cache)   # hashantijoin / hashlookupjoin take no cache argument
         with common.private_tmp() as tmp:
             if fns is joinlib.MERGE_FN:
                 kw['tempdir'] = tmp
